@@ -72,6 +72,7 @@ def register(db):
         properties=["C05", "C09", "C15"],
     ))
     register_candidates(db)
+    register_test(db)
     db.add(Contract(
         f"{E}.deserialize", variant="not-an-enum",
         params={"self": f"obj:{E}", "value": "str", "data_type": None}, kwargs=KW,
@@ -130,3 +131,43 @@ def register_candidates(db):
         properties=["C05"],
         note="candidate order = priority; which order a field's types are in is decided by sort_types (not under contract)",
     ))
+
+
+def register_test(db):
+    """ConverterFactory.test: a value passes iff it is a string some candidate type's converter accepts - and, when the
+    strict flag is set and the converted value is numeric / a period, only if it is the *canonical* spelling of that
+    value (the text the converter would write), so that a field typed e.g. int | str keeps '007' as a string."""
+    db.add(Contract(f"{F}.deserialize", variant="call-view", trusted=True, call_default=True, params={}, returns="u:Any",
+                    raises={"ConverterError": True},
+                    note="call-site view (the function itself is verified: the first accepting candidate decides)"))
+    for k in ("float", "int", "Decimal", "XmlPeriod"):
+        db.opaque_isinst[("Any", k)] = "uf"
+    # no Python object is an instance of two of these classes (none of them is a subclass of another; bool is left out)
+    db.exclusive_types["Any"] = ["list", "float", "int", "Decimal", "XmlPeriod", "dict", "str"]
+
+    def factory(mk, base):
+        return mk.obj(F, {"registry": "opaque:PyDict"})
+
+    DES, SERF = "ConverterFactory.deserialize", "ConverterFactory.serialize"
+    D = f"call_result('{DES}')"
+    IS = "uf('isinstance_Any_{k}', 'bool', {d})"
+    NUMERIC = "(" + " or ".join(IS.format(k=k, d=D) for k in ("float", "int", "Decimal", "XmlPeriod")) + ")"
+    NONFINITE = f"({IS.format(k='float', d=D)} and (uf('math.isinf', 'bool', {D}) or uf('math.isnan', 'bool', {D})))"
+    for strict in (False, True):
+        ens = [("only-strings-can-pass", f"implies(value is None, result == False and called('{DES}') == 0)"),
+               ("the-candidates-are-asked-once-about-the-text-as-given",
+                f"implies(value is not None, called('{DES}') == 1 and call_arg('{DES}', 1) == value and call_arg('{DES}', 2) == types)"),
+               ("a-text-no-candidate-accepts-fails", f"implies(value is not None and returned('{DES}') == 0, result == False)")]
+        if not strict:
+            ens.append(("an-accepted-text-passes", f"implies(returned('{DES}') == 1, result == True)"))
+        else:
+            ens += [("non-numeric-results-and-inf-nan-pass", f"implies(returned('{DES}') == 1 and (not {NUMERIC} or {NONFINITE}), result == True)"),
+                    ("a-numeric-result-passes-only-in-its-canonical-spelling",
+                     f"implies(returned('{DES}') == 1 and {NUMERIC} and not {NONFINITE}, called('{SERF}') == 1 and call_arg('{SERF}', 1) is {D} "
+                     f"and result == (py_strip(some(value)) == call_result('{SERF}')))")]
+        db.add(Contract(
+            f"{F}.test", variant="strict" if strict else "lenient",
+            params={"self": factory, "value": "str|None", "types": "seq[u:type]", "strict": strict}, kwargs={"known": {}, "open": False},
+            ensures=ens, raises=({"ConverterError": True} if strict else {}), returns="bool", properties=["C05"],
+            note="strict: a ConverterError of the re-serialization is not caught by the function" if strict else "",
+        ))
